@@ -41,6 +41,7 @@ def dispatch (prop : String) (line : String) : Verdict :=
     | some "spy" => MlwE.runSpy prop f obsS
     | some "fmt" => FmtE.runFmt prop f obsS
     | some "std" => FmtE.runStd prop f obsS
+    | some "val" => FmtE.runVal prop f obsS
     | some "queue" => QueueE.runQueue prop f obsS
     | some "qstress" => QueueE.runStress prop f obsS
     | some "queue0" => QueueE.runQueue0 prop f obsS
